@@ -1,0 +1,47 @@
+//go:build verif
+
+package agent
+
+// Hooks for the out-of-tree verification harness (build tag verif), property C07 (local
+// delivery). Add-only: nothing here is compiled into a normal build. State accessors only.
+
+import (
+	"github.com/dtn7/dtn7-go/pkg/bpv7"
+)
+
+// VerifClients returns a copy of the RestAgent's uuid -> endpoint map.
+func (ra *RestAgent) VerifClients() map[string]bpv7.EndpointID {
+	m := map[string]bpv7.EndpointID{}
+	ra.clients.Range(func(k, v interface{}) bool {
+		m[k.(string)] = v.(bpv7.EndpointID)
+		return true
+	})
+	return m
+}
+
+// VerifMailbox returns a copy of the RestAgent's uuid -> undelivered bundles map.
+func (ra *RestAgent) VerifMailbox() map[string][]bpv7.Bundle {
+	m := map[string][]bpv7.Bundle{}
+	ra.mailbox.Range(func(k, v interface{}) bool {
+		m[k.(string)] = append([]bpv7.Bundle(nil), v.([]bpv7.Bundle)...)
+		return true
+	})
+	return m
+}
+
+// VerifChildren returns the number of currently registered children of a MuxAgent.
+func (mux *MuxAgent) VerifChildren() int {
+	mux.Lock()
+	defer mux.Unlock()
+	return len(mux.children)
+}
+
+// VerifClientCount returns the number of WebSocket clients currently registered in the agent's
+// client multiplexer.
+func (w *WebSocketAgent) VerifClientCount() int { return w.clientMux.VerifChildren() }
+
+// VerifChans exposes the connector's incoming channels, so that a reader can observe bundles and
+// syscall responses (used as in-band markers) in their order on the wire.
+func (wac *WebSocketAgentConnector) VerifChans() (chan bpv7.Bundle, chan []byte) {
+	return wac.msgInBundleChan, wac.msgInSyscallChan
+}
